@@ -243,6 +243,27 @@ def coherence(ctx, op, prog, vals, tr, d, assess_fn=None, args=None, allow_outsi
     return "ok", ref
 
 
+def _is_broadcast_copy(a, b):
+    """``a`` is ``b`` repeated along one or two inserted axes (leading: an unmapped argument recorded per lane;
+    trailing: an argument recorded per element of a stacked repeat)."""
+    import itertools
+
+    a, b = np.asarray(a, np.float64), np.asarray(b, np.float64)
+    extra = a.ndim - b.ndim
+    if extra < 1 or extra > 2:
+        return False
+    for pos in itertools.combinations(range(a.ndim), extra):
+        shp = list(b.shape)
+        for p in pos:
+            shp.insert(p, 1)
+        try:
+            if np.array_equal(np.broadcast_to(b.reshape(shp), a.shape), a):
+                return True
+        except ValueError:
+            continue
+    return False
+
+
 def args_problem(tr, args):
     """None when the trace records the arguments it was produced with, in the (args, kwargs) convention of traces;
     otherwise a key suffix naming what is wrong ("" = the trace of the program under test itself)."""
@@ -260,10 +281,7 @@ def args_problem(tr, args):
             return f"|bare-{tr.kind}|not-in-(args,kwargs)-convention"
         bad = [(a, b) for a, b in zip(ia[0], want) if not same(a, b)]
         if bad:
-            if tr.kind == "vmap" and all(
-                np.ndim(a) == np.ndim(b) + 1 and np.array_equal(np.asarray(a, np.float64), np.broadcast_to(np.asarray(b, np.float64), np.shape(a)))
-                for a, b in bad
-            ):
+            if tr.kind == "vmap" and all(_is_broadcast_copy(a, b) for a, b in bad):
                 return "|bare-vmap|unmapped-argument-recorded-per-lane"
             return f"|bare-{tr.kind}"
     return None
